@@ -39,7 +39,7 @@ func (a *HTMLFragmentFormatter) Format(f *Fragment, orderedTermLocations TermLoc
 	rv := ""
 	curr := f.Start
 	for _, termLocation := range orderedTermLocations {
-		if termLocation == nil {
+		if termLocation == nil || !termLocation.inBounds(len(f.Orig)) {
 			continue
 		}
 		if termLocation.Start < curr {
